@@ -154,6 +154,13 @@ func c11Case(t *rapid.T, many bool) {
 			violation(t, "import-panic", h.R, "InitChain with the export of height %d panicked: %s\n%s", hgt, n2.Panics[0].Value, n2.Panics[0].Stack)
 		}
 		e2 := n2.Export()
+		if len(e.Candidates) > 100 {
+			// between two recalculations a state can hold more than 100 candidates; Import recalculates
+			// and removes the surplus at once (known finding c11-import-recalculates-stakes): excluded
+			// by construction and counted
+			sim.S.Exclude(c11SigImportRecalc, 1)
+			return
+		}
 		a, b := roundTripView(sim.Flatten(&e), strict), roundTripView(sim.Flatten(&e2), strict)
 		if !strict && len(sim.DiffFlat(a, b)) == 0 && len(sim.DiffFlat(roundTripView(sim.Flatten(&e), true), roundTripView(sim.Flatten(&e2), true))) > 0 {
 			// the only differences are the ones of the known finding (pending updates merged, bip values
